@@ -72,6 +72,9 @@ def origin_place_expr(g, origin):
             return g.prov_place(g.inst(n), t["dplace"])
         if t["k"] == "switch" and t["discr"]["k"] in ("copy", "move"):
             return g.prov_place(g.inst(n), t["discr"]["p"])
+        if t["k"] == "call" and t.get("args") and re.search(r"::(as_ref|as_mut|as_deref|as_deref_mut)$", t["callee"]["path"]):
+            # origin created at a view (`opt.as_ref()`): the fact is about the viewed place
+            return g.prov_operand(g.inst(n), t["args"][0])
     return None
 
 
@@ -171,3 +174,30 @@ def field_assigned(g, live, name):
                 if last and last[-1].get("n") == name:
                     return True
     return False
+
+
+def returned_calls(g):
+    """call nodes whose Result the entry function returns directly (possibly through map_err/context/inlined callees), i.e. without a
+    `?` in between: an Ok return then implies that call returned Ok"""
+    out = set()
+    inst = g.insts[0]
+
+    def walk(x, depth=0):
+        if not isinstance(x, tuple) or not x or depth > 12:
+            return
+        if x[0] == "call" and len(x) > 3 and isinstance(x[3], tuple):
+            out.add(x[3])
+            if re.search(r"Result::<T, E>::(map_err|or_else|inspect_err|inspect)$|ErrorContextExt|::context$", str(x[1])) and x[2]:
+                walk(x[2][0], depth + 1)
+            return
+        if x[0] in ("ret",) and len(x) > 3:
+            out.add(x[3])
+            return
+    for d in g.prog.defs(inst.key).get(0, []):
+        if d[0] == "s":
+            st = inst.body["blocks"][d[1]]["stmts"][d[2]]
+            if st["k"] == "assign" and not st["p"]["proj"]:
+                walk(g.prov_rvalue(inst, st["rv"], (inst.id, d[1], d[2])))
+        else:
+            walk(g.prov_call(inst, d[1]))
+    return out
